@@ -144,13 +144,19 @@ SetOutcomes(s, en, d, now) ==
     ELSE IF d = Big THEN {[st |-> Paused(s, Forever), res |-> "ok"]}
     ELSE {[st |-> Paused(s, now + d), res |-> "ok"]}
 
-\* POST /control/dns_config {protection_enabled: b}.  As built, only
-\* the flag moves: the state the code then is in (flag set, deadline
-\* kept) behaves like the pause it was, and a cleared flag with a reached
-\* deadline like ON.
+\* POST /control/dns_config {protection_enabled: b}.  Enabling cancels a
+\* running pause; where the pause is over already (protection is in effect
+\* either way) the stale record may be left to the worker.  Disabling while a
+\* pause runs: OFF, or the pause is left as it is (documentation silent).
+\* As built, only the flag moves: the state the code then is in (flag set,
+\* deadline kept) behaves like the pause it was, and a cleared flag with a
+\* reached deadline like ON.
 FlagOutcomes(s, b, now) ==
     IF "flag" \in AsBuilt /\ s.mode = "paused" THEN {[st |-> s, res |-> "ok"]}
-    ELSE IF b THEN {[st |-> On(s), res |-> "ok"]}
+    ELSE IF b THEN
+        IF AtEnd(s, now) \/ Elapsed(s, now)
+        THEN {[st |-> On(s), res |-> "ok"], [st |-> s, res |-> "ok"]}
+        ELSE {[st |-> On(s), res |-> "ok"]}
     ELSE IF Running(s, now) \/ AtEnd(s, now)
         THEN {[st |-> Off(s), res |-> "ok"], [st |-> s, res |-> "ok"]}
         ELSE {[st |-> Off(s), res |-> "ok"]}
@@ -250,7 +256,7 @@ SetFlag(b) ==
         /\ SetSt(o.st)
         /\ g' = IF "flag" \in AsBuilt /\ mode = "paused"
                 THEN [k |-> IF b THEN "on" ELSE "off", end |-> NoU]    \* what the caller asked for
-                ELSE IF o.st # St \/ b THEN Told(o.st) ELSE g
+                ELSE IF o.st # St THEN Told(o.st) ELSE g                 \* left as it was: nothing new was said
         /\ out' = [act |-> "flag", res |-> o.res, e |-> FALSE, kind |-> ""]
         /\ UNCHANGED clock
         /\ Emit([k |-> "flag", en |-> b, d |-> 0], Proj', o.res)
